@@ -145,6 +145,12 @@ def build(case):
         data["v"] = (tuple(alld), y * 2.0)
     if case["mode"] == "lines" and case["dseed"] % 5 == 0 and not case.get("xvar"):
         data["e"] = (tuple(alld), np.abs(rng.normal(size=shape)) * 0.1)
+    if case["dseed"] % 4 == 1 and case["mode"] in ("lines", "hist", "aggregate"):
+        # the dataset also holds an unrelated variable on a further dimension that has a coordinate (a spectrum stored
+        # next to the energies): it is none of the plot's business
+        coords["kx"] = [0.5, 1.5, 2.5, 3.5]
+        sub = alld[:max(1, len(alld) - 1)]
+        data["spectrum"] = (tuple(sub) + ("kx",), rng.normal(size=tuple(len(coords[d]) for d in sub) + (4,)))
     if case.get("xvar"):
         # x is a data VARIABLE (e.g. a measured time), linked along the dimension 'x'; it has holes of its own, at other
         # places than y's, and (when that does not empty a whole mapped coordinate) one slice without any x at all
